@@ -30,7 +30,7 @@ def sel_params(k, stereo, reaction, scrg):
     if reaction:
         p["role"] = (0, 7)
     if stereo:
-        p["ds"] = (0, 10)
+        p["ds"] = (0, 11)
     if scrg:
         p["cs"] = (0, 8)
     return p
@@ -119,6 +119,9 @@ def _decorate(spec, present, blist, ds):
             spec["astereo"].append(_tet(c, _nbrs(blist, c), 1 if c % 2 == 0 else -1))
         for (i, j) in blist[:1]:
             spec["bstereo"].append(_pb("PB", i, j, blist, None))
+    elif ds == 10:   # descriptor naming an identifier that is not an atom of the graph (allowed by the API: only the centre is checked)
+        missing = [i for i in range(4) if i not in present]
+        spec["astereo"].append(_tet(a, nb + missing[:1], -1))
     elif ds == 9 and len(present) >= 2:
         c = present[-1]
         spec["astereo"].append(_tet(c, [x for x in present if x != c], -1))
@@ -160,8 +163,8 @@ def _decorate_changes(spec, present, blist, cs):
 
 
 # --- representation flavours ------------------------------------------------------------------------
-FLAVOURS = ["fresh", "relabel_inplace_identity", "relabel_copy_identity", "copy_constructed", "subgraph_all",
-            "compose_self", "copy", "queried"]
+FLAVOURS = ["fresh", "relabel_inplace_identity", "compose_self", "subgraph_all", "copy_constructed",
+            "relabel_copy_identity", "copy", "queried"]
 
 
 def flavour(g, fl):
@@ -177,6 +180,10 @@ def flavour(g, fl):
     if name == "copy_constructed":
         return type(g)(g)
     if name == "subgraph_all":
+        atoms = set(g.atoms)
+        descs = list(getattr(g, "stereo", {}).values())
+        if any(x is not None and x not in atoms for d in descs for x in d.atoms):
+            return g     # a descriptor naming an identifier that is not an atom is (correctly) not part of any subgraph: flavour not applicable
         return g.subgraph(list(g.atoms))
     if name == "compose_self":
         return type(g).compose([g])
@@ -230,7 +237,7 @@ def _bdesc_choices(k, a, b):
 
 MUTATOR_KINDS = {
     "MG": ["add_atom", "remove_atom", "set_atom_attribute", "delete_atom_attribute", "add_bond", "remove_bond",
-           "set_bond_attribute", "delete_bond_attribute", "relabel_inplace"],
+           "set_bond_attribute", "delete_bond_attribute", "relabel_inplace", "bonds_from_matrix"],
     "SMG": ["set_atom_stereo", "delete_atom_stereo", "set_bond_stereo", "delete_bond_stereo"],
     "CRG": ["add_role_bond", "add_bond_reaction_attr", "set_bond_attribute_reaction"],
     "SCRG": ["set_atom_stereo_change", "set_bond_stereo_change", "delete_atom_stereo_change", "delete_bond_stereo_change"],
@@ -266,7 +273,7 @@ COVERS = {
     "add_atom": ["add_atom"], "remove_atom": ["remove_atom"], "set_atom_attribute": ["set_atom_attribute"],
     "delete_atom_attribute": ["delete_atom_attribute"], "add_bond": ["add_bond"], "remove_bond": ["remove_bond"],
     "set_bond_attribute": ["set_bond_attribute"], "delete_bond_attribute": ["delete_bond_attribute"],
-    "relabel_inplace": ["relabel_atoms"],
+    "relabel_inplace": ["relabel_atoms"], "bonds_from_matrix": ["bonds_from_bond_order_matrix"],
     "set_atom_stereo": ["set_atom_stereo"], "delete_atom_stereo": ["delete_atom_stereo"],
     "set_bond_stereo": ["set_bond_stereo"], "delete_bond_stereo": ["delete_bond_stereo"],
     "add_role_bond": ["add_formed_bond", "add_broken_bond", "add_fleeting_bond"],
@@ -285,7 +292,7 @@ COVERS = {
 }
 # public callables that are constructors / class-level builders, covered by other properties (C07, C08, C12, C20)
 NOT_EDITING = {"from_rdmol", "from_geometry", "from_geometries", "from_graphs", "from_atom_types_and_bond_order_matrix",
-               "from_geometry_and_bond_order_matrix", "bonds_from_bond_order_matrix"}
+               "from_geometry_and_bond_order_matrix"}
 
 
 def uncovered_methods(cname):
@@ -347,6 +354,17 @@ def ops_of_kind(cname, kind, k):
         for mp in maps:
             add("relabel_atoms_inplace", (mp,), lambda g, mp=mp: g.relabel_atoms(dict(mp), copy=False),
                 lambda m, mp=mp: m.relabel(mp))
+    elif kind == "bonds_from_matrix":
+        import numpy as np
+        mats = {"upper": [[0, 1, 0.2], [0, 0, 1], [0, 0, 0]], "symmetric": [[0, 1, 1], [1, 0, 0], [1, 0, 0]], "diagonal": [[1, 0, 1], [0, 0, 0], [0, 0, 0]],
+                "late_diagonal": [[0, 1, 0], [0, 0, 0], [0, 0, 1]], "empty": [[0, 0, 0], [0, 0, 0], [0, 0, 0]]}
+        for nm, m3 in mats.items():
+            for n in range(0, k + 1):
+                mat = np.array([row[:n] for row in m3[:n]], dtype=float).reshape(n, n) if n <= 3 else np.zeros((n, n))
+                for inc in (False, True):
+                    add("bonds_from_bond_order_matrix", (nm, n, inc),
+                        lambda g, mat=mat, inc=inc: g.bonds_from_bond_order_matrix(mat, include_bond_order=inc),
+                        lambda m, mat=mat, inc=inc: m.bonds_from_matrix(mat, inc))
     elif kind == "set_atom_stereo":
         for a in ids:
             for d in _desc_choices(k, a):
